@@ -182,7 +182,10 @@ where
 
     // Verify the header checksum if requested
     if let Some(ref expected_checksum) = opts.header_checksum {
-        if *expected_checksum != *archive.header_checksum() {
+        // HashSum equality only compares the common prefix: a shorter (or empty) value must not match.
+        if expected_checksum.len() != archive.header_checksum().len()
+            || *expected_checksum != *archive.header_checksum()
+        {
             return Err(anyhow!("Header checksum mismatch"));
         } else {
             info!("Header checksum verified OK");
